@@ -23,6 +23,14 @@ CAPTURING_EXTERNAL = {"MPI_Info_set", "MPI_Type_create_struct", "MPI_Comm_set_at
                       "setenv", "MPI_File_open"}
 
 
+# MPI objects: constructor -> index of the out-parameter that receives the new handle; destructors take &handle
+MPI_NEW = {"MPI_Type_contiguous": 2, "MPI_Type_vector": 4, "MPI_Type_create_hvector": 4, "MPI_Type_indexed": 4,
+           "MPI_Type_create_hindexed": 4, "MPI_Type_create_struct": 4, "MPI_Type_create_subarray": 6, "MPI_Type_create_resized": 3,
+           "MPI_Type_dup": 1, "MPI_Type_create_indexed_block": 4, "MPI_Type_create_hindexed_block": 4, "MPI_Type_hvector": 4,
+           "MPI_Type_hindexed": 4, "MPI_Type_struct": 4, "MPI_Comm_dup": 1, "MPI_Comm_split": 3, "MPI_Comm_split_type": 4,
+           "MPI_Comm_create": 2, "MPI_Info_create": 0, "MPI_Info_dup": 1, "MPI_File_get_info": 1, "MPI_Group_incl": 3,
+           "MPI_Comm_group": 1}
+MPI_DEL = {"MPI_Type_free", "MPI_Comm_free", "MPI_Info_free", "MPI_Group_free"}
 UNSUMMARISED = set()        # functions over the state budget: their effect on arguments is unknown (assumed capturing)
 
 
@@ -33,6 +41,7 @@ class LeakDom(r3free.FreeDom):
         r3free.FreeDom.__init__(self, fn, {}, syms)
         self.lsumm = summaries
         self.known = known          # names of functions defined in the analysed program
+        self.pre_kill = {}
         self.unsummarised = UNSUMMARISED
         self.local_ids = {v["id"] for v in fn.locals} if hasattr(fn, "locals") else set()
 
@@ -86,7 +95,19 @@ class LeakDom(r3free.FreeDom):
             st = self.capture_val(st, val)
         return st
 
+    mpi_objects = False
+
+    def keep_addr_arg(self, call, key, st=None):
+        # MPI_Type_commit(&t) and the MPI query calls leave the handle as it is
+        if call.get("fn") in ("MPI_Type_commit", "MPI_Type_size", "MPI_Type_get_extent", "MPI_Type_get_true_extent"):
+            return True
+        return r3free.FreeDom.keep_addr_arg(self, call, key, st)
+
     def on_elem(self, elem, st, blk, idx):
+        if self.mpi_objects and elem.get("k") == "call" and elem.get("fn") in MPI_DEL and elem.get("args"):
+            a = strip(elem["args"][0])
+            if isinstance(a, dict) and a.get("k") == "un" and a.get("op") == "&":
+                self.pre_kill[id(elem)] = self.eval(a["e"], st)     # the handle's value before &handle is clobbered
         self.uses(elem, st)
         if elem.get("k") == "ret":
             e = elem.get("e")
@@ -133,6 +154,29 @@ class LeakDom(r3free.FreeDom):
             return st
         if f in FREE_FNS and call.get("args"):
             return self.release(st, self.eval(call["args"][0], st), call, "%s(%s)" % (f, canon(call["args"][0])))
+        if self.mpi_objects and f in MPI_DEL and call.get("args"):
+            a = strip(call["args"][0])
+            if isinstance(a, dict) and a.get("k") == "un" and a.get("op") == "&":
+                v = self.pre_kill.get(id(call))
+                if v is not None:
+                    st = self.release(st, v, call, "%s(&%s)" % (f, canon(a["e"])))
+            return st
+        if self.mpi_objects and f in MPI_NEW and MPI_NEW[f] < len(call.get("args", [])):
+            a = strip(call["args"][MPI_NEW[f]])
+            if isinstance(a, dict) and a.get("k") == "un" and a.get("op") == "&":
+                k = lvalue_key(a["e"])
+                s = self.alloc_sym(call, ":new")
+                F, C = self.sset(st, "$F"), self.sset(st, "$C")
+                if s in F:
+                    st = st.set("$F", (F - {s}) or None)
+                if s in C:
+                    st = st.set("$C", (C - {s}) or None)
+                st = self.add(st, "$A", s)
+                if k is not None and k[0] == "v" and self.tracked(k):
+                    st = st.set(k, fin(s))
+                else:
+                    st = self.add(st, "$C", s)      # stored straight into a structure / array element
+            return st
         summarised = isinstance(rv, tuple) and rv[0] == id(call)
         if summarised:
             su = self.lsumm.get(f, {}).get(rv[1], {})
@@ -164,8 +208,12 @@ class LeakDom(r3free.FreeDom):
         return st
 
 
+MPI_OBJECTS = False
+
+
 def analyse(fn, summaries, syms, known, max_states):
     dom = LeakDom(fn, summaries, syms, known)
+    dom.mpi_objects = MPI_OBJECTS
     dom.assume_alloc_ok = True
     dom.assume_mpi_ok = True
     ex = Explorer(fn, dom, max_states=max_states)
